@@ -269,6 +269,42 @@ def c16(tier, replay):
     def one(job):
         run, ex, inst, txt, name, arg, confs = job
         return job, [run_example(bindir, ex, arg, wd, th) for wd, th in confs]
+    # ---- differential sweep: many more instances, each solved with a narrow, the default and a very large width; the runs of an instance
+    # must print the same objective.  Instances whose runs disagree (or crash / hang / abort) join the jobs that TLC judges below -- the sweep
+    # itself never decides anything, it only selects candidates for the oracle.
+    sweep = {"instances": 0, "runs": 0, "suspects": 0, "per_example": {}}
+    if not replay:
+        r2 = random.Random(SEED * 104729 + 16)
+        per_sweep = int(os.environ.get("VERIF_C16_SWEEP", 600 if not thorough else 6000))       # the variable: development only
+        sconfs = [(1, 1), (None, 1), (2, 1), (100000, 1)]
+        sjobs = []
+        only = os.environ.get("VERIF_C16_EXAMPLES")                                              # development only
+        for ex in ALL:
+            if ex == "golomb" or (only and ex not in only.split(",")):
+                continue
+            for k in range(per_sweep):
+                inst, txt, name = GEN[ex](r2, k % 2 == 0)
+                d = os.path.join(w, f"s{len(sjobs)}")
+                os.makedirs(d, exist_ok=True)
+                arg = os.path.join(d, name)
+                with open(arg, "w") as f:
+                    f.write(txt)
+                sjobs.append((-1, ex, inst, txt, name, arg, sconfs))
+        with ThreadPoolExecutor(max_workers=12) as pool:
+            sres = list(pool.map(one, sjobs))
+        for job, outs in sres:
+            ex = job[1]
+            sweep["instances"] += 1
+            sweep["runs"] += len(outs)
+            sweep["per_example"][ex] = sweep["per_example"].get(ex, 0) + 1
+            if len({(o["status"], o["objective"], o["aborted"]) for o in outs}) > 1 or any(o["status"] != "ok" or o["aborted"] for o in outs):
+                sweep["suspects"] += 1
+                jobs.append((run, ex, job[2], job[3], job[4], job[5], sconfs))
+                run += 1
+        import shutil as _sh
+        for job, outs in sres:
+            if not any(j[5] == job[5] for j in jobs):
+                _sh.rmtree(os.path.dirname(job[5]), ignore_errors=True)
     with ThreadPoolExecutor(max_workers=4) as pool:
         results = list(pool.map(one, jobs))
     tr = os.path.join(w, "examples.ndjson")
@@ -291,6 +327,7 @@ def c16(tier, replay):
     chk.cov["distinct_nontrivial"] = len({json.dumps([v[0], v[1]], sort_keys=True) for v in byrun.values()})
     chk.cov["examples_covered"] = sorted({v[0] for v in byrun.values()})
     chk.cov["runs_per_example"] = {ex: sum(len(v[4]) for v in byrun.values() if v[0] == ex) for ex in ALL}
+    chk.cov["differential_sweep"] = sweep
     for d in res["devs"]:
         tag, line, run, ex = d[0], d[1], d[2], d[3]
         exn, inst, txt, name, outs = byrun[run]
@@ -303,7 +340,9 @@ def c16(tier, replay):
     chk.cov["rule"] = ("for each of the 12 shipped examples: seeded random small instances written in the example's own file format (parser covered; well-formedness conditions of the model respected: "
                        "non-negative profits/weights, metric travel times, sorted aircraft classes with triangle-inequality separations, acyclic precedences with the last node after all, ...), "
                        "the release binary run with widths {default, 1, 2, 3} x threads {1, 2, 4} (where the option is honoured), 30 s watchdog; the printed objective is compared by TLC with the "
-                       "declarative optimum of Examples.tla (brute force over subsets / assignments / subsequences / permutations / schedules); non-trivial = every instance; distinct = distinct (example, instance)")
+                       "declarative optimum of Examples.tla (brute force over subsets / assignments / subsequences / permutations / schedules); non-trivial = every instance; distinct = distinct (example, instance). "
+                       "Differential sweep: a larger set of generated instances is solved with widths {1, default, 2, 100000}; instances whose runs disagree, crash, hang or abort are added to the set TLC judges "
+                       "(the sweep selects candidates, TLC alone decides)")
     chk.assumptions = ["instance writers and the output parser of tools/examples.py are trusted", "sizes are bounded by what TLC can enumerate (<= 9 items, <= 8 vertices, <= 7 jobs ...)",
                        "max2sat / mcp always use all hardware threads (no option)"]
     return chk.finish()
